@@ -104,21 +104,48 @@ def run_property(pid, tier="quick", jobs=None, seed=0, only=None):
     for t in tasks:
         t.setdefault("cost", 1.0)
     tasks.sort(key=lambda t: -t["cost"])
-    jobs = jobs or int(os.environ.get("VERIF_JOBS", "0")) or min(16, os.cpu_count() or 4)
+    ncpu = os.cpu_count() or 4
+    jobs = jobs or int(os.environ.get("VERIF_JOBS", "0")) or min(16, ncpu)
+    # wall-clock solver budgets scale with the load of the host at start (other checks may be running next to this one)
+    if "VERIF_TIMEOUT_SCALE" not in os.environ:
+        try:
+            load = os.getloadavg()[0] / ncpu
+        except OSError:
+            load = 0.0
+        os.environ["VERIF_TIMEOUT_SCALE"] = f"{min(4.0, 1.0 + max(0.0, load)):.2f}"
+    results = _run_tasks(tasks, jobs)
+    # retry pass: a task with an inconclusive / harness-error record is re-run once with 4x budgets and little parallelism
+    # (a verdict must not depend on contention); violations are never retried away - they are replay-confirmed
+    by = {t["name"]: t for t in tasks}
+    again = [by[r["task"]] for r in results if any(q["status"] in ("inconclusive", "error") for q in r["records"])
+             and not any(q["status"] == "violation" for q in r["records"])]
+    if again and not os.environ.get("VERIF_NO_RETRY"):
+        print(f"{pid}: retrying {len(again)} task(s) with inconclusive obligations under 4x solver budgets", flush=True)
+        os.environ["VERIF_TIMEOUT_SCALE"] = f"{4.0 * float(os.environ['VERIF_TIMEOUT_SCALE']):.2f}"
+        redo = {r["task"]: r for r in _run_tasks(again, max(1, min(jobs // 3, len(again))))}
+        results = [redo.get(r["task"], r) for r in results]
+        for r in results:
+            if r["task"] in redo:
+                for q in r["records"]:
+                    q["retried"] = True
+    records = [q for r in results for q in r["records"]]
+    return finish(pid, tier, seed, mod, records, time.time() - t0, results)
+
+
+def _run_tasks(tasks, jobs):
     results = []
     if jobs <= 1 or len(tasks) <= 1:
         for t in tasks:
             results.append(_worker(t))
-    else:
-        ctx = mp.get_context("spawn")
-        with ctx.Pool(processes=min(jobs, len(tasks)), maxtasksperchild=1) as pool:
-            for r in pool.imap_unordered(_worker, tasks):
-                results.append(r)
-                if os.environ.get("VERIF_VERBOSE"):
-                    for q in r["records"]:
-                        print(f"  [{q['status']:12s}] {q['name']}  ({q.get('solver_s', 0):.2f}s, {q.get('queries', 0)}q) {q.get('detail', '')[:200]}", flush=True)
-    records = [q for r in results for q in r["records"]]
-    return finish(pid, tier, seed, mod, records, time.time() - t0, results)
+        return results
+    ctx = mp.get_context("spawn")
+    with ctx.Pool(processes=min(jobs, len(tasks)), maxtasksperchild=1) as pool:
+        for r in pool.imap_unordered(_worker, tasks):
+            results.append(r)
+            if os.environ.get("VERIF_VERBOSE"):
+                for q in r["records"]:
+                    print(f"  [{q['status']:12s}] {q['name']}  ({q.get('solver_s', 0):.2f}s, {q.get('queries', 0)}q) {q.get('detail', '')[:200]}", flush=True)
+    return results
 
 
 def finish(pid, tier, seed, mod, records, wall, results):
